@@ -265,6 +265,21 @@ LIST_OPS = ["list.after", "list.before", "list.between", "list.mask", "list.sort
             "list.move_start_to", "list.move_end_to", "list.deepcopy", "list.wrap", "list.slice"]
 
 
+# the rest of the public surface of TimedList / HoldList / BpmList (queries, constructors, accessors)
+LIST_OPS += ["list.getitem_int", "list.iter", "list.from_dict", "list.empty", "list.df", "list.column", "list.to_numpy",
+             "list.describe", "list.first_offset", "list.last_offset", "list.first_last_offset", "list.time_diff",
+             "list.len", "list.repr", "list.cmp", "hold.head_offset", "hold.tail_offset", "bpm.current_bpm",
+             "bpm.snap_offsets", "bpm.to_timing_map", "bpm.ave_bpm", "list.cast"]
+LISTLIKE = ("list.", "hold.", "bpm.")
+MAP_OPS = ["map.getitem", "map.metadata", "map.describe", "map.stack", "map.metadata_in_set", "map.describe_in_set"]
+SET_OPS = ["mapset.iter", "mapset.items", "mapset.getitem", "mapset.describe", "mapset.stack"]
+WRITERS = dict(osu="map", quaver="map", bms="map", sm="mapset")
+
+
+def is_listop(op):
+    return op.startswith(LISTLIKE)
+
+
 def applicable_ops(game, kinds):
     """ops applicable to a (statically simulated) pool: kinds = list of (kind, game)"""
     ops = []
@@ -274,21 +289,23 @@ def applicable_ops(game, kinds):
     for g in GAMES:
         if has("map", g):
             ops += ["map.deepcopy", "map.rate", "alg.full_ln", "alg.scroll_speed", "alg.dominant_bpm", "ptn.from_note_lists"]
+            # charts of StepMania / O2Jam describe themselves with the set they belong to as a second argument
+            ops += [o for o in MAP_OPS if o.endswith("_in_set") == (g in ("sm", "o2jam"))]
             if g in ("osu", "quaver"):
                 ops += ["alg.sv_normalize"]
             if g == "osu":
                 ops += ["alg.hitsound_copy"]
             if g in ("osu", "quaver", "bms"):
-                ops += [f"write.{g}"] + [f"conv.{c}.convert" for c in CONVERTERS[g]]
+                ops += [f"write.{g}", f"write_file.{g}"] + [f"conv.{c}.convert" for c in CONVERTERS[g]]
         if has("mapset", g):
-            ops += ["mapset.deepcopy", "mapset.rate"]
+            ops += ["mapset.deepcopy", "mapset.rate"] + SET_OPS
             ops += [f"conv.{c}.convert" for c in CONVERTERS[g]]
             if g == "sm":
-                ops += ["write.sm"]
+                ops += ["write.sm", "write_file.sm"]
             if g == "o2jam":
                 ops += ["conv.O2JToSM.convert_merge"]
     if has("pattern"):
-        ops += ["ptn.group"]
+        ops += ["ptn.group", "ptn.len", "ptn.v_mask", "ptn.h_mask"]
     if has("groups"):
         ops += ["ptn.combinations"]
     return sorted(set(ops))
@@ -296,7 +313,7 @@ def applicable_ops(game, kinds):
 
 def result_kinds(op, game_of_src):
     """static (kind, game) entries a successful call adds to the pool"""
-    if op.startswith("list."):
+    if is_listop(op):
         return [("list", game_of_src)]
     if op in ("map.deepcopy", "map.rate", "alg.full_ln", "alg.hitsound_copy"):
         return [("map", game_of_src)]
@@ -341,6 +358,37 @@ def gen_step(rng, op, game):
         a = dict(to=g_off(rng), at=rng.choice(["any", "any", "first", "last", "same"]))
     elif op == "list.slice":
         a = dict(a=rng.randint(0, 3), b=rng.randint(2, 8))
+    elif op == "list.getitem_int":
+        a = dict(i=rng.randrange(0, 64))
+    elif op == "list.from_dict":
+        # the client's own dict of columns / list of row dicts, cut from a list of the pool
+        a = dict(rows_form=rng.random() < 0.4, cols=rng.getrandbits(12), rows=rng.randint(0, 4))
+    elif op == "list.empty":
+        a = dict(rows=rng.randint(0, 3))
+    elif op == "list.column":
+        a = dict(i=rng.randrange(0, 16))
+    elif op in ("list.time_diff", "bpm.ave_bpm"):
+        a = dict(last=rng.choice([None, None, 7000, 12345.5]))
+    elif op == "list.cmp":
+        a = dict(rel=rng.choice(["eq", "gt", "ge", "lt", "le"]), self_=rng.random() < 0.5)
+    elif op == "bpm.current_bpm":
+        a = dict(offset=g_off(rng), sort=rng.random() < 0.7)
+    elif op == "bpm.snap_offsets":
+        a = dict(nths=rng.choice([1, 2, 4, 0.5]), last=rng.choice([None, 7000, 9000.5]))
+    elif op == "list.cast":
+        a = dict(target=rng.choice(GAMES), literal=rng.random() < 0.4)
+    elif op == "map.getitem":
+        a = dict(what=rng.choice(["hits", "holds", "bpms", "NoteList", "TimedList"]))
+    elif op in ("map.metadata", "map.metadata_in_set"):
+        a = dict(unicode=rng.random() < 0.5)
+    elif op in ("map.describe", "mapset.describe", "map.describe_in_set"):
+        a = dict(rounding=rng.choice([2, 0]), unicode=rng.random() < 0.5)
+    elif op == "mapset.getitem":
+        a = dict(what=rng.choice(["int", "hits", "bpms", "NoteList"]), i=rng.randrange(0, 4))
+    elif op == "ptn.v_mask":
+        a = dict(offset=g_off(rng), v=rng.choice([0, 50, 1000]), jack=rng.random() < 0.5)
+    elif op == "ptn.h_mask":
+        a = dict(column=rng.randrange(0, 8), h=rng.choice([0, 1, 2]))
     elif op in ("map.rate", "mapset.rate"):
         a = dict(by=rng.choice([0.5, 2, 1.25, 1, 0.75]))
     elif op == "alg.full_ln":
@@ -377,7 +425,7 @@ def gen(rng, tier, i):
     for _ in range(nsteps):
         ops = applicable_ops(game, kinds)
         # favour the non-list operations a little: there are many list ops
-        heavy = [o for o in ops if not o.startswith("list.")]
+        heavy = [o for o in ops if not is_listop(o)]
         heavy += [o for o in heavy if o.startswith("ptn.g")] * 4 + [o for o in heavy if o.startswith("ptn.c")] * 12
         ops = ops + [o for o in ops if o == "list.append"] * 2       # four kinds of appended value
         op = rng.choice(heavy) if heavy and rng.random() < 0.55 else rng.choice(ops)
@@ -1085,11 +1133,79 @@ def prepare_call(step, pool):
     maps = lambda g=None: [e for e in pool if e["kind"] == "map" and (g is None or e["game"] == g)]
     sets = lambda g=None: [e for e in pool if e["kind"] == "mapset" and (g is None or e["game"] == g)]
 
-    if op.startswith("list."):
+    if is_listop(op):
         ls = list_operands(pool)
+        if op.startswith("hold."):
+            ls = [(g, x) for g, x in ls if hasattr(type(x), "tail_offset")]
+        if op.startswith("bpm."):
+            ls = [(g, x) for g, x in ls if hasattr(type(x), "snap_offsets")]
         if not ls:
             raise Skip()
         game, tl = pick(ls, step["src"], step.get("recent", False))
+        val = lambda r: [dict(kind="value", game=game, obj=r)]
+        if op == "list.getitem_int":
+            if len(tl) == 0:
+                raise Skip()
+            return [tl], (lambda: tl[a["i"] % len(tl)]), val
+        if op == "list.iter":
+            return [tl], (lambda: list(iter(tl))), val
+        if op == "list.from_dict":
+            keep = ["offset"] + [c for i, c in enumerate(tl.df.columns) if c != "offset" and (a["cols"] >> (i % 12)) & 1]
+            sub = tl.df[keep].iloc[: a["rows"]]
+            d = sub.to_dict("records") if a["rows_form"] else sub.to_dict("list")
+            cls = type(tl)
+            return [d], (lambda: cls.from_dict(d)), lambda r: [dict(kind="list", game=game, obj=r)]
+        if op == "list.empty":
+            cls = type(tl)
+            return [], (lambda: cls.empty(a["rows"])), lambda r: [dict(kind="list", game=game, obj=r)]
+        if op == "list.df":
+            return [tl], (lambda: tl.df), val
+        if op == "list.column":
+            col = list(tl.df.columns)[a["i"] % len(tl.df.columns)]
+            return [tl], (lambda: getattr(tl, col)), val
+        if op == "list.to_numpy":
+            return [tl], (lambda: tl.to_numpy()), val
+        if op == "list.describe":
+            return [tl], (lambda: tl.describe()), val
+        if op in ("list.first_offset", "list.last_offset", "list.first_last_offset"):
+            name = op.split(".")[1]
+            return [tl], (lambda: getattr(tl, name)()), val
+        if op == "list.time_diff":
+            return [tl], (lambda: tl.time_diff(a["last"])), val
+        if op == "list.len":
+            return [tl], (lambda: len(tl)), val
+        if op == "list.repr":
+            return [tl], (lambda: repr(tl)), val
+        if op == "list.cmp":
+            import operator
+            other = tl if a["self_"] else pick([x for g, x in ls if type(x) is type(tl)], step["other"])
+            f = getattr(operator, a["rel"])
+            return [tl, other], (lambda: f(tl, other)), val
+        if op in ("hold.head_offset", "hold.tail_offset"):
+            name = op.split(".")[1]
+            return [tl], (lambda: getattr(tl, name)), val
+        if op == "bpm.current_bpm":
+            return [tl], (lambda: tl.current_bpm(a["offset"], sort=a["sort"])), val
+        if op == "bpm.snap_offsets":
+            return [tl], (lambda: tl.snap_offsets(nths=a["nths"], last_offset=a["last"])), val
+        if op == "bpm.to_timing_map":
+            # the result holds the process-wide default Snapper: it is handed over as the second (implicit) argument
+            from reamber.algorithms.timing.TimingMap import TimingMap
+            return [tl, getattr(TimingMap, "snapper", None)], (lambda: tl.to_timing_map()), val
+        if op == "bpm.ave_bpm":
+            return [tl], (lambda: tl.ave_bpm(a["last"])), val
+        if op == "list.cast":
+            from reamber.algorithms.convert.ConvertBase import ConvertBase
+            # the converters' helper: source list, target class, the caller's renaming dict (names or literal columns)
+            slot = next((sl for sl, c in K(game)["lists"].items() if c is type(tl)), None)
+            tgt = K(a["target"])["lists"].get(slot)
+            if tgt is None:
+                raise Skip()
+            common = [c for c in tl.df.columns if c in tgt([]).df.columns]
+            mapping = {c: c for c in common}
+            if a["literal"] and len(common) > 1:
+                mapping[common[-1]] = tl.df[common[-1]].to_numpy()
+            return [tl, mapping], (lambda: ConvertBase.cast(tl, tgt, mapping)), lambda r: [dict(kind="list", game=a["target"], obj=r)]
         hold = hasattr(tl, "tail_offset")
         lst = lambda r: [dict(kind="list", game=game, obj=r)]
         if op == "list.after":
@@ -1172,6 +1288,98 @@ def prepare_call(step, pool):
         e = pick(ss, step["src"], step.get("recent", False))
         f = (lambda: e["obj"].deepcopy()) if op == "mapset.deepcopy" else (lambda: e["obj"].rate(a["by"]))
         return [e["obj"]], f, lambda r: set_entries(e["game"], r)
+    if op in MAP_OPS:
+        e = map_of()
+        m = e["obj"]
+        val = lambda r: [dict(kind="value", game=e["game"], obj=r)]
+        if op == "map.getitem":
+            from reamber.base.lists.TimedList import TimedList
+            from reamber.base.lists.notes.NoteList import NoteList
+            w = a["what"]
+            cls = NoteList if w == "NoteList" else TimedList if w == "TimedList" else K(e["game"])["lists"][w]
+            return [m], (lambda: m[cls]), val
+        if op in ("map.metadata", "map.describe", "map.metadata_in_set", "map.describe_in_set"):
+            import contextlib
+            import inspect
+            import io
+            meth = getattr(m, op.split(".")[1].replace("_in_set", ""))
+            params = inspect.signature(meth).parameters
+            kw = {k_: a[k_] for k_ in ("unicode", "rounding") if k_ in a and k_ in params}
+            objs = [m]
+            if op.endswith("_in_set"):
+                owner = next((x["obj"] for x in sets(e["game"]) if any(y is m for y in x["obj"].maps)), None)
+                name = next((k_ for k_ in ("s", "ms") if k_ in params), None)
+                if owner is None or name is None:
+                    raise Skip()
+                kw[name] = owner
+                objs.append(owner)
+            def f():
+                with contextlib.redirect_stdout(io.StringIO()):
+                    return meth(**kw)
+            return objs, f, val
+        if op == "map.stack":
+            return [m], (lambda: m.stack()), val
+    if op in SET_OPS:
+        ss = sets()
+        if not ss:
+            raise Skip()
+        e = pick(ss, step["src"], step.get("recent", False))
+        st = e["obj"]
+        val = lambda r: [dict(kind="value", game=e["game"], obj=r)]
+        if op == "mapset.iter":
+            return [st], (lambda: list(iter(st))), val
+        if op == "mapset.items":
+            return [st], (lambda: list(st.items())), val
+        if op == "mapset.getitem":
+            from reamber.base.lists.notes.NoteList import NoteList
+            w = a["what"]
+            if w == "int":
+                if not st.maps:
+                    raise Skip()
+                key = a["i"] % len(st.maps)
+            else:
+                key = NoteList if w == "NoteList" else K(e["game"])["lists"][w]
+            return [st], (lambda: st[key]), val
+        if op == "mapset.describe":
+            import contextlib
+            import io
+            def f():
+                with contextlib.redirect_stdout(io.StringIO()):
+                    return st.describe(rounding=a["rounding"], unicode=a["unicode"])
+            return [st], f, val
+        if op == "mapset.stack":
+            return [st], (lambda: st.stack()), val
+    if op.startswith("write_file."):
+        import tempfile
+        g = op.split(".")[1]
+        if WRITERS[g] == "mapset":
+            ss = sets(g)
+            if not ss:
+                raise Skip()
+            e = pick(ss, step["src"], step.get("recent", False))
+        else:
+            e = map_of((g,))
+        def f():
+            with tempfile.TemporaryDirectory(prefix="c14-") as d:
+                path = os.path.join(d, "chart." + dict(osu="osu", quaver="qua", sm="sm", bms="bms")[g])
+                r = e["obj"].write_file(path)
+                with open(path, "rb") as fh:
+                    return (r, len(fh.read()))
+        return [e["obj"]], f, lambda r: [dict(kind="value", game=g, obj=r)]
+    if op in ("ptn.len", "ptn.v_mask", "ptn.h_mask"):
+        from reamber.algorithms.pattern.Pattern import Pattern
+        ps = [e for e in pool if e["kind"] == "pattern"]
+        if not ps:
+            raise Skip()
+        e = pick(ps, step["src"], step.get("recent", False))
+        ptn = e["obj"]
+        val = lambda r: [dict(kind="value", game=e["game"], obj=r)]
+        if op == "ptn.len":
+            return [ptn], (lambda: len(ptn)), val
+        ar = ptn.df.to_records(index=False)          # the caller's own record array, as `group` builds it
+        if op == "ptn.v_mask":
+            return [ar], (lambda: Pattern.v_mask(ar, a["offset"], a["v"], a["jack"])), val
+        return [ar], (lambda: Pattern.h_mask(ar, a["column"], a["h"])), val
     if op == "alg.full_ln":
         from reamber.algorithms.generate.full_ln import full_ln
         e = map_of()
@@ -1385,6 +1593,19 @@ def observe(case):
                     alias.append(q)
         # cell objects (lists / dicts inside object columns) of the result that are cells of the heap already — the
         # class-level defaults — make that old cell reachable from the result; one object in several rows is tagged
+        # A result that is NOT made by deepcopy (filter, sort, append, …) holds the cell objects of its arguments'
+        # frames by design (a new frame, the same per-note lists): those are not counted, whatever else made them
+        # cells of the heap (e.g. a client's dict handed to `from_dict` earlier).
+        sig0 = _TABLE.get(op)
+        arg_cellobjs = set()
+        if not (sig0 and sig0["deep"]):
+            for cells in arg_cells:
+                for _, r in cells:
+                    o = heap.objs[r]
+                    if is_leaf(o):
+                        for buf in buffers(o):
+                            if buf.dtype == object:
+                                arg_cellobjs.update(id(v) for v in buf.reshape(-1).tolist() if isinstance(v, (list, dict, set)))
         for r in res_cells:
             o = heap.objs[r]
             if r < n or not is_leaf(o):
@@ -1396,7 +1617,7 @@ def observe(case):
                         if isinstance(v, (list, dict, set)):
                             ids.append(id(v))
                             q = heap.by_id.get(id(v))
-                            if q is not None and q < n and q not in ret:
+                            if q is not None and q < n and q not in ret and id(v) not in arg_cellobjs:
                                 ret.append(q)
                                 alias.append(q)
             if len(set(ids)) < len(ids):
@@ -1435,7 +1656,7 @@ def observe(case):
         events.append(ev)
         known = len(heap.objs)
         tags.append(op)
-        if op.startswith("list."):
+        if is_listop(op) and args:
             tags.append("cls:" + type(args[0]).__name__)
         if any(len(frames[before[r]]["rows"]) > 0 for cells in arg_cells for _, r in cells if is_leaf(heap.objs[r])):
             nonempty = True
